@@ -519,7 +519,7 @@ half-turn about the origin sample, `i ↦ 2⌊n/2⌋ - i`, negates it -/
 theorem mesh_origin_and_half_turn (n i : Int) :
     meshCoord n (n / 2) (0 : K) = 0 ∧ meshCoord n (2 * (n / 2) - i) (0 : K) = -meshCoord n i (0 : K) := by
   refine ⟨?_, meshCoord_half_turn n i⟩
-  unfold meshCoord; simp
+  unfold meshCoord Gen.meshCoord; simp
 
 /-- circles and rectangles (any rotation) centred on the origin sample are unchanged by the half-turn about it -/
 theorem circle_rect_half_turn (sqrt : K → K) (half : K) (n0 n1 : Int) (radius width height ca sa : K) (aa : Bool) (i j : Int) :
@@ -528,10 +528,7 @@ theorem circle_rect_half_turn (sqrt : K → K) (half : K) (n0 n1 : Int) (radius 
       = rectangleAt half n0 n1 width height 0 0 ca sa aa i j := by
   refine ⟨?_, ?_⟩
   · unfold circleAt; simp only [meshCoord_half_turn, neg_mul_neg]
-  · unfold rectangleAt; simp only [meshCoord_half_turn, absK_eq_abs]
-    rw [show -meshCoord n0 i (0 : K) * -sa + -meshCoord n1 j (0 : K) * ca = -(meshCoord n0 i 0 * -sa + meshCoord n1 j 0 * ca) by ring,
-      show -meshCoord n0 i (0 : K) * ca + -meshCoord n1 j (0 : K) * sa = -(meshCoord n0 i 0 * ca + meshCoord n1 j 0 * sa) by ring,
-      abs_neg, abs_neg]
+  · unfold rectangleAt; simp only [meshCoord_half_turn, absK_eq_abs, meshRot_neg, abs_neg]
 
 /-- hexagons: the six edge normals are closed under negation (`normal (n+3) = -normal n`, true of the angles
 `n·π/3 + φ`), hence the hexagon centred on the origin sample is unchanged by the half-turn -/
@@ -567,7 +564,7 @@ theorem mirror_when_unrotated (sqrt : K → K) (half : K) (n0 n1 : Int) (radius 
     hexagonAt half inner sinT cosT n0 n1 0 0 aa (2 * (n0 / 2) - i) j = hexagonAt half inner sinT cosT n0 n1 0 0 aa i j := by
   refine ⟨?_, ?_, ?_⟩
   · unfold circleAt; simp only [meshCoord_half_turn, neg_mul_neg]
-  · unfold rectangleAt; simp only [meshCoord_half_turn, absK_eq_abs, mul_one, mul_zero, neg_zero, add_zero, zero_add, abs_neg]
+  · unfold rectangleAt; simp only [meshCoord_half_turn, absK_eq_abs, meshRot_unrotated, abs_neg]
   · unfold hexagonAt
     simp only [meshCoord_half_turn, minK_eq_min]
     obtain ⟨p0, p1, p2, p3, p4, p5⟩ := hperm
@@ -659,27 +656,47 @@ theorem hex_clear_of_border {K : Type} [Field K] [LinearOrder K] [IsStrictOrdere
   · exact hex_border_unrotated half hh R g pad sinT cosT size k a i j hh56 hh1 hR hg hpad hk hsize (by simpa using hT) ha hb hin
   · exact hex_border_rotated half hh R g pad sinT cosT size k a i j hh56 hh1 hR hg hpad hk hsize (by simpa using hT) ha hb hin
 
-/-- the same with the array size the code computes, `size = ceil((2k+1)·inner·2 + 2k·g + 2·pad)` (`hexSegmentsSize`, the definition the
-driver runs), for any `ceil` with `x ≤ ceil x` -/
-theorem hex_clear_of_border_code_size {K : Type} [Field K] [LinearOrder K] [IsStrictOrderedRing K]
-    (ceil : K → Int) (hceil : ∀ x : K, x ≤ ((ceil x : Int) : K))
-    (half hh R g : K) (pad : Nat) (sinT cosT : Nat → K) (k : Nat) (a : HexCell) (i j : Int) (rotate : Bool)
-    (hh56 : 5 / 6 ≤ hh) (hh1 : hh ≤ 1) (hR : 0 ≤ R) (hg : 0 ≤ g) (hpad : 2 ≤ pad) (hk : 1 ≤ k)
+/-- **the two segment theorems over the code's own expressions.** `Gen.hexInner`, `Gen.hexSizeArg`, `Gen.hexPitch` and `Gen.hexToRC` are
+re-translated from `hex_segments` / `hex_to_xy` / `hex_to_rc` on every run and are what the driver executes; with `sqrtN 3 = 2·hh`
+(`hh = √3/2`) they are the closed forms used above (`gen_hex_forms`), so: segments at distinct cells of a gap > 0 aperture share no pixel,
+and — for `pad ≥ 2`, any `ceil` with `x ≤ ceil x` — every pixel of every segment of a k-ring aperture lies in `[1, size − 2]` for the size
+the code computes. An edit of the pitch, the size formula or the cell-to-centre map changes these definitions and breaks this theorem. -/
+theorem hex_segments_code {K : Type} [Field K] [LinearOrder K] [IsStrictOrderedRing K]
+    (ceil : K → Int) (hceil : ∀ x : K, x ≤ ((ceil x : Int) : K)) (sqrtN : ℕ → K)
+    (half hh R g : K) (pad : Nat) (sinT cosT : Nat → K) (k : Nat) (a b : HexCell) (i j : Int) (rotate : Bool)
+    (hs : sqrtN 3 = 2 * hh) (hh56 : 5 / 6 ≤ hh) (hh1 : hh ≤ 1) (hR : 0 ≤ R)
     (hT : if rotate then
             (sinT 0 = 0 ∧ cosT 0 = 1 ∧ sinT 1 = hh ∧ cosT 1 = 1 / 2 ∧ sinT 2 = hh ∧ cosT 2 = -(1 / 2) ∧
              sinT 3 = 0 ∧ cosT 3 = -1 ∧ sinT 4 = -hh ∧ cosT 4 = -(1 / 2) ∧ sinT 5 = -hh ∧ cosT 5 = 1 / 2)
           else
             (sinT 0 = 1 / 2 ∧ cosT 0 = hh ∧ sinT 1 = 1 ∧ cosT 1 = 0 ∧ sinT 2 = 1 / 2 ∧ cosT 2 = -hh ∧
-             sinT 3 = -(1 / 2) ∧ cosT 3 = -hh ∧ sinT 4 = -1 ∧ cosT 4 = 0 ∧ sinT 5 = -(1 / 2) ∧ cosT 5 = hh))
-    (hcell : a ∈ segCells k)
-    (hin : hexagonAt half (R * hh) sinT cosT (hexSegmentsSize ceil k pad (R * hh) g) (hexSegmentsSize ceil k pad (R * hh) g)
-          (hexToRC (2 * hh) hh (3 / 2) a (R + g / 2) rotate).1 (hexToRC (2 * hh) hh (3 / 2) a (R + g / 2) rotate).2 false i j = 1) :
-    (1 ≤ i ∧ i ≤ hexSegmentsSize ceil k pad (R * hh) g - 2) ∧ (1 ≤ j ∧ j ≤ hexSegmentsSize ceil k pad (R * hh) g - 2) := by
-  refine hex_clear_of_border half hh R g (pad : K) sinT cosT _ k a i j rotate hh56 hh1 hR hg (by exact_mod_cast hpad) hk ?_ hT hcell hin
-  have := hceil (((k * 2 + 1 : Nat) : K) * (R * hh) * ((2 : Nat) : K) + ((k * 2 : Nat) : K) * g + ((pad * 2 : Nat) : K))
-  unfold hexSegmentsSize
-  refine le_trans (le_of_eq ?_) this
-  push_cast; ring
+             sinT 3 = -(1 / 2) ∧ cosT 3 = -hh ∧ sinT 4 = -1 ∧ cosT 4 = 0 ∧ sinT 5 = -(1 / 2) ∧ cosT 5 = hh)) :
+    let n := hexSegmentsSize ceil sqrtN k pad R g
+    let seg := fun (c : HexCell) => hexagonAt half (Gen.hexInner sqrtN R) sinT cosT n n
+      (Gen.hexToRC sqrtN c (Gen.hexPitch R g) rotate).1 (Gen.hexToRC sqrtN c (Gen.hexPitch R g) rotate).2 false i j
+    (0 < g → a.1 + a.2.1 + a.2.2 = 0 → b.1 + b.2.1 + b.2.2 = 0 → a ≠ b → ¬ (seg a = 1 ∧ seg b = 1)) ∧
+    (0 ≤ g → 2 ≤ pad → 1 ≤ k → a ∈ segCells k → seg a = 1 → (1 ≤ i ∧ i ≤ n - 2) ∧ (1 ≤ j ∧ j ≤ n - 2)) := by
+  intro n seg
+  have hhpos : 0 < hh := by linarith
+  have fa := gen_hex_forms sqrtN hh hs a (Gen.hexPitch R g) R g rotate k pad
+  have fb := gen_hex_forms sqrtN hh hs b (Gen.hexPitch R g) R g rotate k pad
+  have segeq : ∀ c : HexCell, seg c = hexagonAt half (R * hh) sinT cosT n n (hexToRC (2 * hh) hh (3 / 2) c (R + g / 2) rotate).1
+      (hexToRC (2 * hh) hh (3 / 2) c (R + g / 2) rotate).2 false i j := by
+    intro c
+    have fc := gen_hex_forms sqrtN hh hs c (R + g / 2) R g rotate k pad
+    simp only [seg, fc.2.2.1, fc.2.1, fc.1]
+  constructor
+  · intro hg ha hb hab
+    rw [segeq a, segeq b]
+    exact hex_disjoint_pos_gap half hh R g sinT cosT n a b i j rotate hhpos hR hg hT ha hb hab
+  · intro hg hpad hk hcell hin
+    rw [segeq a] at hin
+    refine hex_clear_of_border half hh R g (pad : K) sinT cosT n k a i j rotate hh56 hh1 hR hg (by exact_mod_cast hpad) hk ?_ hT hcell hin
+    have h2 := hceil (Gen.hexSizeArg sqrtN k pad R g)
+    have e : ((n : Int) : K) = ((ceil (Gen.hexSizeArg sqrtN k pad R g) : Int) : K) := rfl
+    rw [e]
+    rw [fa.2.2.2] at h2 ⊢
+    exact h2
 
 /-- KNOWN FINDING (KF-C20-hex-gap0-shared-edge), witness at a concrete pixel of the model: for an integer circumradius `R`, gap 0 and no
 antialiasing, the pixel `R` columns right of the centre sample (`(⌊n/2⌋, ⌊n/2⌋ + R)`, the right-hand vertex of the central hexagon) is
